@@ -29,7 +29,8 @@ ANCHORS = ['hash:hash_file', 'hash:hash_path', 'hash:get_hash_by_name',
            'verify:get_file_metadata', 'manifest:manifest_hashes_to_hashlib',
            'cli:HashCommand.__call__']
 REQUIRED = ['hash:hash_file', 'verify:get_file_metadata', 'kat_checked',
-            'short_read_cases', 'pipe_cases', 'unsupported_cases']
+            'short_read_cases', 'pipe_cases', 'unsupported_cases', 'inplace_cases',
+            'fifo_cases']
 ASSUMPTIONS = ['oracle digests: hashlib one-shot, cross-checked on a sample against '
                'coreutils (md5sum sha1sum sha256sum sha512sum b2sum) and openssl dgst',
                'WHIRLPOOL is not provided by this Python/OpenSSL: UnsupportedHash is '
@@ -53,6 +54,10 @@ def units(tier, seed):
         u.append({'k': 'pipe', 'i': i})
     for i in range(4 if tier == 'quick' else 40):
         u.append({'k': 'names', 'i': i})
+    for i in range(6 if tier == 'quick' else 200):
+        u.append({'k': 'inplace', 'i': i})
+    for i in range(4 if tier == 'quick' else 60):
+        u.append({'k': 'fifo', 'i': i})
     u.append({'k': 'kat'})
     return u
 
@@ -400,10 +405,124 @@ def run_kat(u, ctx):
                 ctx.count('kat_checked')
 
 
+def exec_inplace(ctx, case):
+    """History: hash a file, rewrite it in place (same inode, same length, same
+    timestamps), hash again: the second result must be that of the new content."""
+    from gemato import verify as gv
+    rng = common.rng_for('c17-inplace', case['seed'])
+    n = case['n']
+    a = rng.randbytes(n)
+    b = bytes((x + 1) % 256 for x in a)
+    mnames = case['mnames']
+    ctx.case(sig=('inplace', min(n, 400)), case=case, klass='inplace')
+    ctx.count('inplace_cases')
+    with common.Scratch('vf-c17i-') as d:
+        p = os.path.join(d, 'f')
+        with open(p, 'wb') as f:
+            f.write(a)
+        first = list(gv.get_file_metadata(p, list(mnames)))[5]
+        e = adapt.to_gemato({'tag': 'DATA', 'path': 'f', 'size': n,
+                             'sums': {m: mtext.digest(m, a) for m in mnames}})
+        ok, diff = gv.verify_path(p, e)
+        if not ok:
+            ctx.violation('verify-own-entry', 'fresh file does not verify: %r' % (diff,),
+                          case)
+            return
+        st = os.stat(p)
+        with open(p, 'r+b') as f:
+            f.write(b)
+        os.utime(p, ns=(st.st_atime_ns, st.st_mtime_ns))
+        second = list(gv.get_file_metadata(p, list(mnames)))[5]
+        want = {m: mtext.digest(m, b) for m in mnames}
+        want['__size__'] = n
+        if not check_result(ctx, 'get_file_metadata-after-inplace-rewrite', second, want,
+                            case):
+            return
+        ok, diff = gv.verify_path(p, e)
+        if ok:
+            ctx.violation('stale-digest-accepted', 'verify_path accepts a file rewritten '
+                          'in place against the entry of its OLD content', case)
+
+
+def run_inplace(u, ctx):
+    rng = common.rng_for(ctx.seed, ID, 'inplace', u['i'])
+    sup = mtext.supported_hashes()
+    exec_inplace(ctx, {'kind': 'inplace', 'seed': rng.randrange(1 << 30),
+                       'n': rng.choice([1, 20, 300, 65536, 65537, 1048577]),
+                       'mnames': sorted(rng.sample(sup, rng.randint(1, 3)))})
+
+
+def exec_fifo(ctx, case):
+    """`gemato hash -H .. PATH` where PATH is not a plain file: a FIFO fed in
+    bursts, or a procfs file (st_size 0): size = bytes read."""
+    import threading
+    mnames = sorted(case['mnames'])
+    ctx.case(sig=('fifo', case['what']), case=case, klass='fifo-' + case['what'])
+    ctx.count('fifo_cases')
+    env = dict(os.environ, PYTHONPATH=common.REPO)
+    with common.Scratch('vf-c17f-') as d:
+        if case['what'] == 'proc':
+            p = '/proc/version'
+            with open(p, 'rb') as f:
+                data = f.read()
+            writer = None
+        else:
+            p = os.path.join(d, 'fifo')
+            os.mkfifo(p)
+            data = common.content_bytes(case['content'])
+
+            def feed():
+                with open(p, 'wb') as f:
+                    pos = 0
+                    for b in case['bursts']:
+                        f.write(data[pos:pos + b])
+                        f.flush()
+                        pos += b
+                        time.sleep(0.02)
+                    f.write(data[pos:])
+            writer = threading.Thread(target=feed, daemon=True)
+            writer.start()
+        code = ("import sys; from gemato.cli import main; "
+                "sys.exit(main(['gemato','hash','-H',%r,%r]))" % (' '.join(mnames), p))
+        try:
+            r = subprocess.run([common.PY, '-c', code], capture_output=True, env=env,
+                               timeout=120)
+        except subprocess.TimeoutExpired:
+            ctx.count('harness_error')
+            return
+        if writer:
+            writer.join(10)
+        got = r.stdout.decode('utf8', 'replace').split()
+        want = ['DATA', p, str(len(data))]
+        for m in mnames:
+            want += [m, mtext.digest(m, data)]
+        if r.returncode != 0 or got != want:
+            ctx.violation('wrong-digest:gemato-hash-path:' + case['what'],
+                          '`gemato hash PATH` on a %s printed wrong size/digests (rc=%r)'
+                          % (case['what'], r.returncode), case,
+                          {'got': got, 'want': want,
+                           'stderr': r.stderr.decode('utf8', 'replace')[-300:]})
+
+
+def run_fifo(u, ctx):
+    rng = common.rng_for(ctx.seed, ID, 'fifo', u['i'])
+    n = rng.choice([1, 300, 65537, 200001])
+    sup = mtext.supported_hashes()
+    exec_fifo(ctx, {'kind': 'fifo', 'what': 'proc' if u['i'] % 4 == 3 else 'fifo',
+                    'content': {'r': [rng.randrange(1 << 30), n]},
+                    'bursts': [rng.choice([1, 1000, 65536]) for _ in range(rng.randint(0, 3))],
+                    'mnames': sorted(rng.sample(sup, rng.randint(1, 3)))})
+
+
 def run_unit(u, ctx):
     {'len': run_len, 'rand': run_rand, 'pipe': run_pipe_unit, 'names': run_names,
-     'kat': run_kat}[u['k']](u, ctx)
+     'kat': run_kat, 'inplace': run_inplace, 'fifo': run_fifo}[u['k']](u, ctx)
 
 
 def replay(case, ctx):
-    exec_case(case, ctx)
+    if case['kind'] == 'inplace':
+        exec_inplace(ctx, case)
+    elif case['kind'] == 'fifo':
+        exec_fifo(ctx, case)
+    else:
+        exec_case(case, ctx)
